@@ -28,6 +28,7 @@ package typeutil
 
 //@ func (*Map).Set
 //@ prop C19
+//@ uses IdenticalEquiv
 //@ requires key != nil && imp(m.table != nil, BktWf(Bkt(m, key)))
 //@ assigns m.table, m.length, map(m.table), elems(Bkt(m, key))
 //@ loop 0 invariant forall(j, 0, rangeidx + 1, !Match(bucket, j, key))
@@ -42,6 +43,7 @@ package typeutil
 
 //@ func (*Map).Delete
 //@ prop C19
+//@ uses IdenticalEquiv
 //@ nilok
 //@ requires key != nil
 //@ assigns m.length, elems(Bkt(m, key))
@@ -51,3 +53,69 @@ package typeutil
 //@ ensures imp(!result && m != nil, m.length == old(m.length))
 //@ ensures imp(result, exists(i, 0, len(Bkt(m, key)), old(Match(Bkt(m, key), i, key)) && Bkt(m, key)[i].key == nil && Bkt(m, key)[i].value == nil && forall(j, 0, len(Bkt(m, key)), imp(j != i, Bkt(m, key)[j] == old(Bkt(m, key)[j])))))
 //@ ensures imp(result && old(BktWf(Bkt(m, key))), !Has(Bkt(m, key), key))
+
+// ---------------------------------------------------------------------------
+// the hasher: functional specification HashSpec (see /verif/specs/c19_hash.spec)
+
+//@ func hashString
+//@ prop C19
+//@ pure
+//@ loop 0 invariant 0 <= i
+
+// identity of a *types.TypeName (pointer value)
+//@ func (hasher).hashTypeName
+//@ prop C19
+//@ pure
+
+// term-set normalisation lives in internal/typeparams: assumed deterministic
+//@ func (hasher).hashUnion
+//@ trusted
+//@ pure
+
+//@ func (hasher).shallowHash
+//@ trusted
+//@ pure
+
+//@ func (hasher).hashTermSet
+//@ trusted
+//@ pure
+
+//@ func (hasher).hashTypeParam
+//@ prop C19
+//@ pure
+//@ requires t != nil
+//@ ensures result == TParamHash(h, t)
+
+//@ func (hasher).hashTuple
+//@ prop C19
+//@ pure
+//@ loop 0 invariant 0 <= i && i <= n && n == tuple.Len() && hash == TupleSum(h, tuple, i)
+//@ ensures result == TupleHash(h, tuple)
+
+//@ func (hasher).hash
+//@ prop C19
+//@ pure
+//@ uses IdenticalStruct
+//@ requires t != nil
+//@ loop 0 invariant 0 <= i && i <= n && n == t.(*types.Struct).NumFields() && hash == FieldsHash(h, t.(*types.Struct), i)
+//@ loop 1 invariant 0 <= i && i <= n && n == t.(*types.Signature).TypeParams().Len() && n > 0 && tparams == t.(*types.Signature).TypeParams() && hash == ConstraintSum(SigG(h, t.(*types.Signature)), t.(*types.Signature), i)
+//@ loop 2 invariant 0 <= i && i <= n && n == t.(*types.Interface).NumMethods() && hash == MethodsSum(h, t.(*types.Interface), i)
+//@ loop 3 invariant 0 <= i && i <= targs.Len() && targs == t.(*types.Named).TypeArgs() && hash == NamedHash(h, t.(*types.Named), i)
+//@ ensures result == HashSpec(h, t)
+// identical types hash equally: one induction step per kind (u is an arbitrary second type; IH = hypothesis on components)
+//@ lemma imp(typeis(t, *types.Basic) && typeis(anyval(u, types.Type), *types.Basic) && types.Identical(t, anyval(u, types.Type)), HashSpec(h, t) == HashSpec(h, anyval(u, types.Type)))
+//@ lemma imp(typeis(t, *types.Alias) && !typeis(anyval(u, types.Type), *types.Alias) && types.Identical(t, anyval(u, types.Type)) && IH(h, types.Unalias(t), anyval(u, types.Type)), HashSpec(h, t) == HashSpec(h, anyval(u, types.Type)))
+//@ lemma imp(typeis(t, *types.Slice) && typeis(anyval(u, types.Type), *types.Slice) && types.Identical(t, anyval(u, types.Type)) && IH(h, t.(*types.Slice).Elem(), anyval(u, types.Type).(*types.Slice).Elem()), HashSpec(h, t) == HashSpec(h, anyval(u, types.Type)))
+//@ lemma imp(typeis(t, *types.Pointer) && typeis(anyval(u, types.Type), *types.Pointer) && types.Identical(t, anyval(u, types.Type)) && IH(h, t.(*types.Pointer).Elem(), anyval(u, types.Type).(*types.Pointer).Elem()), HashSpec(h, t) == HashSpec(h, anyval(u, types.Type)))
+//@ lemma imp(typeis(t, *types.Array) && typeis(anyval(u, types.Type), *types.Array) && types.Identical(t, anyval(u, types.Type)) && IH(h, t.(*types.Array).Elem(), anyval(u, types.Type).(*types.Array).Elem()), HashSpec(h, t) == HashSpec(h, anyval(u, types.Type)))
+//@ lemma imp(typeis(t, *types.Map) && typeis(anyval(u, types.Type), *types.Map) && types.Identical(t, anyval(u, types.Type)) && IH(h, t.(*types.Map).Key(), anyval(u, types.Type).(*types.Map).Key()) && IH(h, t.(*types.Map).Elem(), anyval(u, types.Type).(*types.Map).Elem()), HashSpec(h, t) == HashSpec(h, anyval(u, types.Type)))
+//@ lemma imp(typeis(t, *types.Chan) && typeis(anyval(u, types.Type), *types.Chan) && types.Identical(t, anyval(u, types.Type)) && IH(h, t.(*types.Chan).Elem(), anyval(u, types.Type).(*types.Chan).Elem()), HashSpec(h, t) == HashSpec(h, anyval(u, types.Type)))
+//@ lemma imp(typeis(t, *types.TypeParam) && typeis(anyval(u, types.Type), *types.TypeParam) && types.Identical(t, anyval(u, types.Type)), HashSpec(h, t) == HashSpec(h, anyval(u, types.Type)))
+// tuples, structs and named types: induction over the component index k
+//@ lemma imp(typeis(t, *types.Tuple) && typeis(anyval(u, types.Type), *types.Tuple) && types.Identical(t, anyval(u, types.Type)), TupleSum(h, t.(*types.Tuple), 0) == TupleSum(h, anyval(u, types.Type).(*types.Tuple), 0))
+//@ lemma imp(typeis(t, *types.Tuple) && typeis(anyval(u, types.Type), *types.Tuple) && types.Identical(t, anyval(u, types.Type)) && 0 < anyval(k, int) && anyval(k, int) <= t.(*types.Tuple).Len() && IH(h, t.(*types.Tuple).At(anyval(k, int)-1).Type(), anyval(u, types.Type).(*types.Tuple).At(anyval(k, int)-1).Type()) && TupleSum(h, t.(*types.Tuple), anyval(k, int)-1) == TupleSum(h, anyval(u, types.Type).(*types.Tuple), anyval(k, int)-1), TupleSum(h, t.(*types.Tuple), anyval(k, int)) == TupleSum(h, anyval(u, types.Type).(*types.Tuple), anyval(k, int)))
+//@ lemma imp(typeis(t, *types.Struct) && typeis(anyval(u, types.Type), *types.Struct) && types.Identical(t, anyval(u, types.Type)) && 0 < anyval(k, int) && anyval(k, int) <= t.(*types.Struct).NumFields() && IH(h, t.(*types.Struct).Field(anyval(k, int)-1).Type(), anyval(u, types.Type).(*types.Struct).Field(anyval(k, int)-1).Type()) && FieldsHash(h, t.(*types.Struct), anyval(k, int)-1) == FieldsHash(h, anyval(u, types.Type).(*types.Struct), anyval(k, int)-1), FieldsHash(h, t.(*types.Struct), anyval(k, int)) == FieldsHash(h, anyval(u, types.Type).(*types.Struct), anyval(k, int)))
+//@ lemma imp(typeis(t, *types.Named) && typeis(anyval(u, types.Type), *types.Named) && types.Identical(t, anyval(u, types.Type)), NamedHash(h, t.(*types.Named), 0) == NamedHash(h, anyval(u, types.Type).(*types.Named), 0))
+//@ lemma imp(typeis(t, *types.Named) && typeis(anyval(u, types.Type), *types.Named) && types.Identical(t, anyval(u, types.Type)) && 0 < anyval(k, int) && anyval(k, int) <= t.(*types.Named).TypeArgs().Len() && IH(h, t.(*types.Named).TypeArgs().At(anyval(k, int)-1), anyval(u, types.Type).(*types.Named).TypeArgs().At(anyval(k, int)-1)) && NamedHash(h, t.(*types.Named), anyval(k, int)-1) == NamedHash(h, anyval(u, types.Type).(*types.Named), anyval(k, int)-1), NamedHash(h, t.(*types.Named), anyval(k, int)) == NamedHash(h, anyval(u, types.Type).(*types.Named), anyval(k, int)))
+// non-generic signatures: parameter and result tuples
+//@ lemma imp(typeis(t, *types.Signature) && typeis(anyval(u, types.Type), *types.Signature) && types.Identical(t, anyval(u, types.Type)) && t.(*types.Signature).TypeParams().Len() == 0 && anyval(u, types.Type).(*types.Signature).TypeParams().Len() == 0 && IH(h, asI(t.(*types.Signature).Params(), types.Type), asI(anyval(u, types.Type).(*types.Signature).Params(), types.Type)) && IH(h, asI(t.(*types.Signature).Results(), types.Type), asI(anyval(u, types.Type).(*types.Signature).Results(), types.Type)) && t.(*types.Signature).Params() != nil && t.(*types.Signature).Results() != nil && anyval(u, types.Type).(*types.Signature).Params() != nil && anyval(u, types.Type).(*types.Signature).Results() != nil && ConstraintSum(h, t.(*types.Signature), 0) == SigBase(t.(*types.Signature)) && ConstraintSum(h, anyval(u, types.Type).(*types.Signature), 0) == SigBase(anyval(u, types.Type).(*types.Signature)), HashSpec(h, t) == HashSpec(h, anyval(u, types.Type)))
